@@ -12,7 +12,7 @@ META = {
                    "that dominates execution. R3 leaf interpretation table: Satisfied(true) only for a final stack of length exactly 1 whose word is 1, DataOutput(Memory(vm.memory)) only for length 1 and "
                    "word 2, every other leaf outcome is Satisfied(false); leaf/parent is decided by `node_edges(ix).is_empty()`; parents export (stack, memory). R4 parent inputs are collected in "
                    "ascending parent order from the parent map; each node's program is the one addressed by its own node entry.",
-    "not_decided": "exactly-once execution, numbering independence of verdict / indices / outputs / gas, concatenation of parents' stacks and memories as values, equality with the reference semantics.",
+    "not_decided": "(R5 decides the level-order bookkeeping: in-degree = entries of the parent list = edges into the node, one decrement per edge, removal after scheduling.) exactly-once execution, numbering independence of verdict / indices / outputs / gas, concatenation of parents' stacks and memories as values, equality with the reference semantics.",
 }
 
 INNER = "essential_check::solution::check_predicate_inner"
@@ -21,8 +21,12 @@ INNER = "essential_check::solution::check_predicate_inner"
 def run(ctx):
     prog = ctx.prog
     for r, t in [("R1", "graph validation dominates every program start; cycles and malformed edge ranges are errors"), ("R2", "edge targets are compared with the number of nodes before execution"),
-                 ("R3", "leaf interpretation table"), ("R4", "parent inputs in ascending order; program of the node's own address")]:
+                 ("R3", "leaf interpretation table"), ("R4", "parent inputs in ascending order; program of the node's own address"),
+                 ("R5", "level order bookkeeping (Kahn): a node's in-degree is the number of edges into it, it is decremented once per edge of a finished parent, a node is scheduled exactly when it reaches 0 and is then removed")]:
         ctx.rule(r, t)
+    r5(ctx, prog)
+    ctx.rule("R6", "per-solution data stays with its solution: the cross-pass cache, the predicate, the index and the outputs of solution i are those of position i")
+    r6(ctx, prog)
     f = prog.fn(INNER)
     if not ctx.anchor("R1", "fn check_predicate_inner", f):
         return
@@ -143,3 +147,128 @@ def run(ctx):
         ctx.saw(ne)
         gets = [M.callee_of(t) for _, t in ne.calls() if "slice" in M.callee_of(t) or "Vec" in M.callee_of(t) or "Index" in M.callee_of(t)]
         ctx.ob("R1", "node_edges:checked-lookups-only", not [g for g in gets if "Index" in g], "%s:%d" % (ne.file, ne.line), "lookups %s" % sorted(set(M.short_path(g) for g in gets)), ne)
+
+
+def r5(ctx, prog):
+    """The parent lists hold one entry per *edge* (create_parent_map pushes per edge), so counting and decrementing must both be per edge."""
+    from .. import access as A
+    S = "essential_check::solution::"
+    RNG = r"\(std::iter::range::<impl std::iter::Iterator for std::ops::Range<A>>::next\(<I as std::iter::IntoIterator>::into_iter\(std::ops::Range::Range\{0, \$1\}\)\) as Some\)\.0"
+    f = prog.fn(S + "in_degrees")
+    if ctx.anchor("R5", "fn in_degrees", f):
+        ctx.saw(f)
+        v = A.View(prog, f)
+        ins = v.calls(r"BTreeMap::insert$")
+        ok = False
+        detail = "%d insert(s)" % len(ins)
+        if len(ins) == 1:
+            key = A.norm(M.render(A.positional(M.peel(v.pv.of_operand(ins[0][1]["args"][1]), casts=True))))
+            val = A.norm(M.render(A.positional(M.peel(v.pv.of_operand(ins[0][1]["args"][2])))))
+            m = re.match(r"^Option::map_or\(std::collections::BTreeMap::get\(\$2, \(%s as u16\)\), 0, \{closure#0\}\)$" % RNG, val)
+            ok = bool(m) and re.match("^%s$" % RNG, key) is not None
+            detail = "insert(%s.., %s..)" % (key[-40:], val[:60])
+            loops = M.natural_loops(f)
+            ok = ok and len(loops) == 1 and ins[0][0] in loops[0][1]
+        ctx.ob("R5", "in-degree=length-of-the-node's-parent-list", ok, f.loc(0), detail + "; one entry per node 0..num_nodes, value = map_or(parents.get(node), 0, len)", f)
+        clos = prog.closures_of(f)
+        r = [A.norm(M.render(A.positional(prog.prov(c).of_local(0)))) for c in clos]
+        ctx.ob("R5", "in-degree-counts-every-edge", r == ["Vec::len($2)"], f.loc(0), "the counting closure returns %s (the whole list: one entry per edge, no de-duplication)" % r, f)
+    f = prog.fn(S + "create_parent_map")
+    if ctx.anchor("R5", "fn create_parent_map", f):
+        v = A.View(prog, f)
+        pushes = v.calls(r"Vec::push$")
+        loops = M.natural_loops(f)
+        inner = [l for l in loops if any(l[1] < l2[1] for l2 in loops)]
+        ok = len(pushes) == 1 and len(inner) == 1 and pushes[0][0] in inner[0][1]
+        tgt = M.render(M.peel(v.pv.of_operand(pushes[0][1]["args"][0]))) if pushes else ""
+        val = M.render(M.peel(v.pv.of_operand(pushes[0][1]["args"][1]), casts=True)) if pushes else ""
+        ok = ok and re.match(r"^std::collections::btree_map::(entry::)?Entry::or_default\(std::collections::BTreeMap::entry\(.*\)\)$", tgt) is not None
+        OUT = r"\(std::iter::range::<impl std::iter::Iterator for std::ops::Range<A>>::next\(<I as std::iter::IntoIterator>::into_iter\(std::ops::Range::Range\{0, Vec::len\(predicate\.nodes\)\}\)\) as Some\)\.0"
+        ok = ok and re.match("^%s$" % OUT, val) is not None and re.search(r"BTreeMap::entry\(.*, \(<std::slice::Iter<'a, T> as std::iter::Iterator>::next\(.*Predicate::node_edges\(predicate, %s\)\?\)\) as Some\)\.0\)\)$" % OUT, tgt) is not None
+        at = [a.text for a in C.conditions(prog, f, pushes[0][0])] if pushes else []
+        kinds = [re.match(r"^(is:Some\(.*Iterator>::next\(|is:Some\(std::iter::range|ok\(essential_types::predicate::Predicate::node_edges\(|Lt\(int::from\()", a) is not None for a in at]
+        ok = ok and len(at) == 4 and all(kinds)
+        ctx.ob("R5", "parent-list-gets-one-entry-per-edge", ok, f.loc(pushes[0][0]) if pushes else f.loc(0), "one push per edge, in the edge loop, conditional only on the edge being valid: push(%s.., %s) under %d condition(s)" % (tgt[:70], val[-60:], len(at)), f)
+    f = prog.fn(S + "reduce_in_degrees")
+    if ctx.anchor("R5", "fn reduce_in_degrees", f):
+        ctx.saw(f)
+        v = A.View(prog, f)
+        st = v.stores()
+        CH = r"\(<std::slice::Iter<'a, T> as std::iter::Iterator>::next\(std::slice::iter::<impl std::iter::IntoIterator for &'a \[T\]>::into_iter\(\$2\)\) as Some\)\.0"
+        SLOT = r"\(std::collections::BTreeMap::get_mut\(\$1, %s\) as Some\)\.0" % CH
+        ok = len(st) == 1 and re.match("^%s$" % SLOT, st[0][1]) is not None and re.match(r"^-1 \+ %s$|^%s \+ -1$" % (SLOT, SLOT), st[0][2]) is not None
+        loops = M.natural_loops(f)
+        ok = ok and len(loops) == 1 and st[0][0] in loops[0][1]
+        ctx.ob("R5", "one-decrement-per-edge-of-the-finished-parent", ok, f.loc(0), "for each child in the edge list: slot(child) := %s" % [x[2][-60:] for x in st], f)
+    f = prog.fn(S + "parallel_topo_sort")
+    if ctx.anchor("R5", "fn parallel_topo_sort ", f):
+        v = A.View(prog, f)
+        IN = "essential_check::solution::in_degrees(Vec::len($1.nodes), $2)"
+        NODE = r"\(<std::vec::IntoIter<T, A> as std::iter::Iterator>::next\(<std::vec::Vec<T, A> as std::iter::IntoIterator>::into_iter\(essential_check::solution::find_nodes_with_no_parents\(%s\)\)\) as Some\)\.0" % re.escape(IN)
+        rd = v.calls(r"solution::reduce_in_degrees$")
+        rm = v.calls(r"BTreeMap::remove$")
+        ne = v.calls(r"Predicate::node_edges$")
+        r_ = lambda t, i: A.norm(M.render(A.positional(M.peel(v.pv.of_operand(t["args"][i]), casts=True))))
+        ok = len(rd) == 1 and len(rm) == 1 and len(ne) == 1
+        if ok:
+            ok = r_(rd[0][1], 0) == IN and re.match(r"^essential_types::predicate::Predicate::node_edges\(\$1, \(%s as usize\)\)\?$" % NODE, A.norm(M.render(A.positional(M.peel(v.pv.of_operand(rd[0][1]["args"][1])))))) is not None
+            ok = ok and r_(rm[0][1], 0) == IN and re.match("^%s$" % NODE, r_(rm[0][1], 1)) is not None
+            loops = M.natural_loops(f)
+            inner = [l for l in loops if any(l[1] < l2[1] for l2 in loops)]
+            ok = ok and len(inner) == 1 and rd[0][0] in inner[0][1] and rm[0][0] in inner[0][1]
+        ctx.ob("R5", "finished-node:children-decremented-then-node-removed", ok, f.loc(rd[0][0]) if rd else f.loc(0),
+               "for each node of the level: reduce_in_degrees(in_degrees, node_edges(node)) and in_degrees.remove(node)", f)
+        fn_ = v.calls(r"solution::find_nodes_with_no_parents$")
+        ctx.ob("R5", "level-computed-from-the-current-in-degrees", len(fn_) == 1 and r_(fn_[0][1], 0) == IN and any(fn_[0][0] in l[1] for l in M.natural_loops(f)), f.loc(fn_[0][0]) if fn_ else f.loc(0),
+               "find_nodes_with_no_parents(in_degrees) is re-evaluated in every round", f)
+
+
+def r6(ctx, prog):
+    from .. import access as A
+    f = prog.fn("essential_check::solution::check_set_predicates")
+    if not ctx.anchor("R6", "fn check_set_predicates", f):
+        return
+    ctx.saw(f)
+    v = A.View(prog, f)
+    CACHES = "std::iter::Iterator::collect(std::iter::Iterator::map(std::ops::Range::Range{0, Vec::len($2.solutions)}, {closure#0}))"
+    mp = v.calls(r"rayon::iter::ParallelIterator::map$")
+    got = A.norm(M.render(A.positional(M.peel(v.pv.of_operand(mp[0][1]["args"][0]))))) if len(mp) == 1 else "?"
+    want = "rayon::iter::IndexedParallelIterator::enumerate(rayon::iter::IndexedParallelIterator::zip(<I as rayon::iter::IntoParallelRefIterator<'data>>::par_iter($2.solutions), %s))" % CACHES
+    ctx.ob("R6", "solutions-zipped-with-caches-by-position-then-enumerated", got == want, f.loc(mp[0][0]) if mp else f.loc(0),
+           "parallel map over %s" % got[:260], f)
+    clos = {c.path.rsplit("::", 1)[-1]: c for c in prog.closures_of(f) if c.parent == f.path or c.path.count("{closure#") == 1}
+    c0, c1, c2 = clos.get("{closure#0}"), clos.get("{closure#1}"), clos.get("{closure#2}")
+    if ctx.anchor("R6", "cache hand-out closure", c0):
+        ctx.saw(c0)
+        r = A.norm(M.render(A.positional(prog.prov(c0).of_local(0), A.closure_env(prog, f, c0))))
+        ctx.ob("R6", "cache-i=take(cache.entry(i))", r == "std::mem::take(std::collections::hash_map::Entry::or_default(std::collections::HashMap::entry(^7, ($2 as u16))))", c0.loc(0),
+               "position i of the hand-out is %s" % r, c0)
+    if ctx.anchor("R6", "per-solution closure", c1):
+        ctx.saw(c1)
+        cv = A.View(prog, c1, A.closure_env(prog, f, c1))
+        cp = cv.calls(r"solution::check_predicate$")
+        args = [A.norm(M.render(A.positional(M.peel(cv.pv.of_operand(a)), cv.env))) for a in cp[0][1]["args"]] if len(cp) == 1 else []
+        ok = len(args) == 7 and args[1] == "^2" and args[2] == "essential_check::solution::GetPredicate::get_predicate(^3, $2.1.0.predicate_to_solve)" \
+            and re.match(r"^Result::expect\(<T as std::convert::TryInto<U>>::try_into\(\$2\.0\), '.*'\)$", args[4]) is not None and args[6] == "essential_check::solution::Ctx::Ctx{^6, $2.1.1}"
+        ctx.ob("R6", "solution-i:own-predicate,own-index,own-cache", ok, c1.loc(cp[0][0]) if cp else c1.loc(0),
+               "check_predicate(set=%s, predicate=%s, index=%s, ctx=%s)" % (args[1:2], args[2:3], args[4:5], args[6:7]), c1)
+        oks = [a for a in A._alts(cv.pv.of_local(0)) if a.kind == "aggr" and str(a.a).endswith("Result::Ok")]
+        r = A.norm(M.render(A.positional(oks[0].sub[0], cv.env))) if len(oks) == 1 else "?"
+        ctx.ob("R6", "result-tagged-with-the-same-index-and-cache", re.match(r"^tuple\{\(\$2\.0 as u16\), \(essential_check::solution::check_predicate\(.*\) as Ok\)\.0, \$2\.1\.1\}$", r) is not None, c1.loc(0), "Ok(%s)" % (r[:40] + ".." + r[-30:]), c1)
+    if ctx.anchor("R6", "write-back closure", c2):
+        ctx.saw(c2)
+        cv = A.View(prog, c2, A.closure_env(prog, f, c2))
+        st = cv.stores()
+        slot = [s_ for s_ in st if s_[1].startswith("Option::expect(std::collections::HashMap::get_mut(")]
+        ok = len(slot) == 1 and re.match(r"^Option::expect\(std::collections::HashMap::get_mut\(\^7, \$2\.0\), '.*'\)$", slot[0][1]) is not None and slot[0][2] == "$2.2"
+        ctx.ob("R6", "cache-written-back-under-its-own-index", ok, c2.loc(0), "writes %s" % [(a[:70], b) for _, a, b in st], c2)
+        r = A.norm(M.render(A.positional(cv.pv.of_local(0), cv.env)))
+        ctx.ob("R6", "outputs-tagged-with-their-solution-index", r == "essential_check::solution::DataFromSolution::DataFromSolution{$2.0, $2.1.1}", c2.loc(0), "yields %s" % r, c2)
+    dm = prog.fn("essential_check::solution::decode_mutations")
+    if ctx.anchor("R6", "fn decode_mutations", dm):
+        ctx.saw(dm)
+        dv = A.View(prog, dm)
+        ix = dv.calls(r"ops::IndexMut<I>>::index_mut$|slice::<impl \[T\]>::get_mut$")
+        got = [(A.norm(M.render(A.positional(M.peel(dv.pv.of_operand(t["args"][0]))))), A.norm(M.render(A.positional(M.peel(dv.pv.of_operand(t["args"][1]), casts=True))))) for _, t in ix]
+        ok = any(a == "$2.solutions" and re.search(r"\.solution_index$", b) for a, b in got)
+        ctx.ob("R6", "computed-mutations-go-to-the-solution-named-by-the-output", ok, dm.loc(ix[0][0]) if ix else dm.loc(0), "indexing %s" % [(a, b[-60:]) for a, b in got], dm)
